@@ -133,7 +133,14 @@ func checkC11Valid(c c11Case) *ev.Failure {
 			return ev.Failf("compile-error:"+lang+":"+errSig(err.Error()), "-gen %s rejects valid IDL: %v\n%s", tg, err, allTexts(texts))
 		}
 		files := listFiles(out)
-		if len(files) == 0 && len(c.P.Root().Decls) > 0 {
+		nonTypedef := false
+		for _, d := range c.P.Root().Decls {
+			if d.Kind != "typedef" {
+				nonTypedef = true
+			}
+		}
+		// (a file of typedefs only legitimately yields no Java file)
+		if len(files) == 0 && nonTypedef {
 			return ev.Failf("no-output:"+lang, "-gen %s produced no files", tg)
 		}
 		if f := wellFormed(tg, out, files, c.Recurse || len(c.P.Root().Includes) == 0); f != nil {
